@@ -890,22 +890,14 @@ fn search_wire_roundtrip(obs: &[&str]) {
 //            address the resolver is asked for the text before the last '.', and the call goes to the address it returned
 //   status : exit status is 0 iff no reply was an error (single call, --more, error in the middle of --more)
 //   print  : stdout carries exactly the parameters of every successful reply, in order
-fn search_cli(obs: &[&str]) {
+// scripted peers for the command line tool: a resolver (answers Resolve with the service's address, GetInfo with its own vendor) and a service whose
+// behaviour is keyed on the method name suffix; both record (socket, "method parameters") of every request; oneway requests are not answered
+fn spawn_fake_peers(sock: &std::path::Path, rsock: &std::path::Path) -> std::sync::Arc<std::sync::Mutex<Vec<(String, String)>>> {
     use std::io::{BufRead, BufReader, Write};
     use std::os::unix::net::UnixListener;
     use std::sync::{Arc, Mutex};
-    let mut found: std::collections::HashMap<&'static str, Value> = std::collections::HashMap::new();
-    let mut explored = 0usize;
-    let bin = match std::env::var("VX_CLI_BIN") { Ok(b) if std::path::Path::new(&b).exists() => b, _ => {
-        for ob in obs { println!("{}", json!({"obligation": ob, "found": false, "explored": 0, "detail": Value::Null, "note": "VX_CLI_BIN not built"})); }
-        return;
-    } };
-    let dir = std::env::temp_dir().join(format!("vx-c20-{}", std::process::id())).join("a.b").join("c.d");
-    let _ = std::fs::create_dir_all(&dir);
-    // the service address extends the resolver address (a resolved address that merely starts like the resolver's is still another socket)
-    let sock = dir.join("resolver.service");
-    let rsock = dir.join("resolver");
-    let _ = std::fs::remove_file(&sock); let _ = std::fs::remove_file(&rsock);
+    let sock = sock.to_path_buf();
+    let rsock = rsock.to_path_buf();
     let seen: Arc<Mutex<Vec<(String, String)>>> = Arc::new(Mutex::new(Vec::new()));   // (which socket, method + parameters)
     let service_addr = format!("unix:{}", sock.display());
     for (which, path) in [("service", sock.clone()), ("resolver", rsock.clone())] {
@@ -927,8 +919,11 @@ fn search_cli(obs: &[&str]) {
                         let req: Value = match serde_json::from_slice(&buf) { Ok(v) => v, Err(_) => return };
                         let method = req["method"].as_str().unwrap_or("").to_string();
                         seen.lock().unwrap().push((which.to_string(), format!("{} {}", method, req["parameters"])));
+                        if req["oneway"] == json!(true) { continue; }
                         let replies: Vec<Value> = if method == "org.varlink.resolver.Resolve" {
                             vec![json!({"parameters": {"address": service_addr}})]
+                        } else if method.ends_with(".GetInfo") {
+                            vec![json!({"parameters": {"vendor": which, "product": "fake", "version": "1", "url": "http://example.org", "interfaces": ["org.varlink.service"]}})]
                         } else if method.ends_with(".StreamCut") {
                             // one announced-to-continue reply, then the peer hangs up: the expected final reply never arrives
                             let mut out = serde_json::to_vec(&json!({"continues": true, "parameters": {"n": 1}})).unwrap(); out.push(0);
@@ -953,6 +948,26 @@ fn search_cli(obs: &[&str]) {
             }
         });
     }
+    seen
+}
+
+fn search_cli(obs: &[&str]) {
+    use std::io::{BufRead, BufReader, Write};
+    use std::os::unix::net::UnixListener;
+    use std::sync::{Arc, Mutex};
+    let mut found: std::collections::HashMap<&'static str, Value> = std::collections::HashMap::new();
+    let mut explored = 0usize;
+    let bin = match std::env::var("VX_CLI_BIN") { Ok(b) if std::path::Path::new(&b).exists() => b, _ => {
+        for ob in obs { println!("{}", json!({"obligation": ob, "found": false, "explored": 0, "detail": Value::Null, "note": "VX_CLI_BIN not built"})); }
+        return;
+    } };
+    let dir = std::env::temp_dir().join(format!("vx-c20-{}", std::process::id())).join("a.b").join("c.d");
+    let _ = std::fs::create_dir_all(&dir);
+    // the service address extends the resolver address (a resolved address that merely starts like the resolver's is still another socket)
+    let sock = dir.join("resolver.service");
+    let rsock = dir.join("resolver");
+    let _ = std::fs::remove_file(&sock); let _ = std::fs::remove_file(&rsock);
+    let seen = spawn_fake_peers(&sock, &rsock);
     // (class, args after `varlink --color off --resolver <r>`, expected exit-ok, expected stdout values, expected (socket, method-prefix) seen)
     let direct = |m: &str| format!("unix:{}/{}", sock.display(), m);
     let cases: Vec<(&'static str, Vec<String>, bool, Vec<Value>, Vec<(&'static str, String)>)> = vec![
@@ -1182,6 +1197,97 @@ fn search_cert(obs: &[&str]) {
     }
 }
 
+// C18 (slice): the real `varlink bridge` ($VX_CLI_BIN) on pipes, scripted resolver and service behind it.  A client writes requests to the bridge's stdin and
+// reads its stdout: the reply sequence must be the one the service sends when talked to directly (GetInfo: the resolver's), the service must see the
+// requests unchanged, a oneway request must not stall the bridge, and closing stdin ends the bridge with exit status 0.
+fn search_bridge(obs: &[&str]) {
+    use std::io::{BufRead, BufReader, Write};
+    let mut found: std::collections::HashMap<&'static str, Value> = std::collections::HashMap::new();
+    let mut explored = 0usize;
+    let bin = match std::env::var("VX_CLI_BIN") { Ok(b) if std::path::Path::new(&b).exists() => b, _ => {
+        for ob in obs { println!("{}", json!({"obligation": ob, "found": false, "explored": 0, "detail": Value::Null, "note": "VX_CLI_BIN not built"})); }
+        return;
+    } };
+    let dir = std::env::temp_dir().join(format!("vx-c18-{}", std::process::id())).join("x.y");
+    let _ = std::fs::create_dir_all(&dir);
+    let sock = dir.join("resolver.service");
+    let rsock = dir.join("resolver");
+    let _ = std::fs::remove_file(&sock); let _ = std::fs::remove_file(&rsock);
+    let seen = spawn_fake_peers(&sock, &rsock);
+    let pong = json!({"parameters": {"pong": 1}});
+    let stream3 = vec![json!({"continues": true, "parameters": {"n": 1}}), json!({"continues": true, "parameters": {"n": 2}}), json!({"parameters": {"n": 3}})];
+    let fail = json!({"error": "org.example.Err", "parameters": {"why": "x"}});
+    // scripts: (request, expected replies through the bridge)
+    let scripts: Vec<Vec<(Value, Vec<Value>)>> = vec![
+        vec![(json!({"method": "org.example.Ping", "parameters": {"a": 1}}), vec![pong.clone()])],
+        vec![(json!({"method": "org.example.Ping"}), vec![pong.clone()]), (json!({"method": "org.example.Ping", "parameters": {"b": [1, 2, {"c": "\u{e9}\u{0}x"}]}}), vec![pong.clone()])],
+        vec![(json!({"method": "org.example.Stream", "more": true}), stream3.clone()), (json!({"method": "org.example.Ping"}), vec![pong.clone()])],
+        vec![(json!({"method": "org.example.Note", "oneway": true, "parameters": {"k": 1}}), vec![]), (json!({"method": "org.example.Ping"}), vec![pong.clone()])],
+        vec![(json!({"method": "org.example.Fail"}), vec![fail.clone()]), (json!({"method": "org.example.Ping"}), vec![pong.clone()])],
+        vec![(json!({"method": "org.example.StreamFail", "more": true}), vec![json!({"continues": true, "parameters": {"n": 1}}), fail.clone()]), (json!({"method": "org.other.deep.name.Ping"}), vec![pong.clone()])],
+        vec![(json!({"method": "org.varlink.service.GetInfo"}), vec![json!({"parameters": {"vendor": "resolver", "product": "fake", "version": "1", "url": "http://example.org", "interfaces": ["org.varlink.service"]}})])],
+    ];
+    for script in scripts {
+        explored += 1;
+        seen.lock().unwrap().clear();
+        let mut child = match std::process::Command::new(&bin).arg("--resolver").arg(format!("unix:{}", rsock.display())).arg("bridge")
+            .stdin(std::process::Stdio::piped()).stdout(std::process::Stdio::piped()).stderr(std::process::Stdio::piped()).spawn() { Ok(c) => c, Err(_) => continue };
+        let mut stdin = child.stdin.take().unwrap();
+        let stdout = child.stdout.take().unwrap();
+        let (tx, rx) = std::sync::mpsc::channel::<Value>();
+        std::thread::spawn(move || {
+            let mut r = BufReader::new(stdout);
+            loop {
+                let mut buf = Vec::new();
+                match r.read_until(0, &mut buf) { Ok(n) if n > 0 => {}, _ => break }
+                if buf.last() == Some(&0) { buf.pop(); }
+                let v: Value = serde_json::from_slice(&buf).unwrap_or(json!({"unparseable": String::from_utf8_lossy(&buf).to_string()}));
+                if tx.send(v).is_err() { break; }
+            }
+        });
+        let mut got_all: Vec<Vec<Value>> = Vec::new();
+        let mut stalled = false;
+        for (req, want) in &script {
+            let mut b = serde_json::to_vec(req).unwrap(); b.push(0);
+            if stdin.write_all(&b).is_err() || stdin.flush().is_err() { break; }
+            let mut got = Vec::new();
+            for _ in 0..want.len() {
+                match rx.recv_timeout(Duration::from_millis(3000)) { Ok(v) => got.push(v), Err(_) => { stalled = true; break; } }
+            }
+            got_all.push(got);
+            if stalled { break; }
+        }
+        // nothing unexpected may follow
+        let extra: Vec<Value> = std::iter::from_fn(|| rx.recv_timeout(Duration::from_millis(150)).ok()).collect();
+        drop(stdin);
+        let t0 = std::time::Instant::now();
+        let mut exited: Option<bool> = None;
+        while t0.elapsed() < Duration::from_secs(5) { if let Ok(Some(st)) = child.try_wait() { exited = Some(st.success()); break; } std::thread::sleep(Duration::from_millis(10)); }
+        if exited.is_none() { let _ = child.kill(); }
+        let _ = child.wait();
+        let peer_saw = seen.lock().unwrap().clone();
+        let want_all: Vec<Vec<Value>> = script.iter().map(|(_, w)| w.clone()).collect();
+        let detail = json!({"requests": script.iter().map(|(r, _)| r.clone()).collect::<Vec<_>>(), "replies_through_bridge": got_all, "expected": want_all, "unexpected_extra_frames": extra,
+            "peer_saw": peer_saw.iter().map(|(a, b)| format!("{}: {}", a, b)).collect::<Vec<_>>(), "bridge_exit_ok_after_stdin_closed": exited, "stalled": stalled});
+        if got_all != want_all || !extra.is_empty() { found.entry("relay").or_insert(detail.clone()); }
+        if stalled && script.iter().any(|(r, _)| r["oneway"] == json!(true)) { found.entry("oneway").or_insert(detail.clone()); }
+        // what the service saw: every request that is not GetInfo, method and parameters unchanged, in order
+        let want_seen: Vec<String> = script.iter().filter(|(r, _)| r["method"] != json!("org.varlink.service.GetInfo")).map(|(r, _)| format!("{} {}", r["method"].as_str().unwrap(), r["parameters"])).collect();
+        let got_seen: Vec<String> = peer_saw.iter().filter(|(w, _)| w == "service").map(|(_, m)| m.clone()).collect();
+        if got_seen != want_seen { found.entry("request").or_insert(detail.clone()); }
+        if script.iter().any(|(r, _)| r["method"] == json!("org.varlink.service.GetInfo")) && !peer_saw.iter().any(|(w, m)| w == "resolver" && m.starts_with("org.varlink.resolver.GetInfo")) {
+            found.entry("getinfo").or_insert(detail.clone());
+        }
+        if exited != Some(true) { found.entry("exit").or_insert(detail.clone()); }
+    }
+    let _ = std::fs::remove_dir_all(std::env::temp_dir().join(format!("vx-c18-{}", std::process::id())));
+    for ob in obs {
+        let class = match *ob { "C18.relay" | "C18.copy" => "relay", "C18.request" => "request", "C18.getinfo" => "getinfo", "C18.oneway" => "oneway", _ => "none" };
+        let f = found.get(class).or_else(|| found.get("relay")).or_else(|| found.get("request")).or_else(|| found.get("getinfo")).or_else(|| found.get("oneway")).or_else(|| found.get("exit"));
+        emit(ob, f.is_some(), explored, f.cloned().unwrap_or(Value::Null));
+    }
+}
+
 fn main() {
     let pat = std::env::args().nth(1).unwrap_or_else(|| "*".to_string());
     let m = |ob: &str| -> bool {
@@ -1218,6 +1324,8 @@ fn main() {
     if m("C03.info") { search_info_dups("C03.info"); }
     let cli: Vec<&str> = ["C20.split", "C20.status", "C20.print", "C20.no-panic"].iter().cloned().filter(|o| m(o)).collect();
     if !cli.is_empty() { search_cli(&cli); }
+    let br: Vec<&str> = ["C18.relay", "C18.copy", "C18.request", "C18.getinfo", "C18.oneway", "C18.no-panic"].iter().cloned().filter(|o| m(o)).collect();
+    if !br.is_empty() { search_bridge(&br); }
     let cert: Vec<&str> = ["C19.gate", "C19.step", "C19.own-id", "C19.mode", "C19.value"].iter().cloned().filter(|o| m(o)).collect();
     if !cert.is_empty() { search_cert(&cert); }
     let wr: Vec<&str> = ["C17.wire-attrs"].iter().cloned().filter(|o| m(o)).collect();
